@@ -105,11 +105,15 @@ def install_member_api(reg, cx):
     reg.method_effects.setdefault('sample', dict(fields=[], ghost=['rng'],
                                                  arg_cells=[]))
 
+    prev_getattr = reg.getattr_hook
+
     def getattr_hook(ex, st, o, d, name, node):
         if isinstance(d, Sym) and d.k == 'Member' and name == 'log_v':
             return Sym(LVm(d.t), 'real')
         if isinstance(d, Sym) and d.k == 'Member' and name == '__class__':
             return Opaque('memberclass')
+        if prev_getattr is not None:
+            return prev_getattr(ex, st, o, d, name, node)
         return NotImplemented
     reg.getattr_hook = getattr_hook
 
